@@ -392,7 +392,8 @@ class Parser:
                     # literal — fold it here so the sign survives regardless of
                     # context (a `Neg` under REAL loses it). See `as_real`.
                     return Decnum('-0.0', loc)
-                elif isinstance(arg, Integer):
+                elif isinstance(arg, Integer) and arg.val >= 0:
+                    # a negative integer literal; negating *that* is a `Neg`
                     return Integer(-arg.val, loc)
                 else:
                     return Neg(arg, loc)
